@@ -166,6 +166,16 @@ func (c11) Run(c *Ctx, i int) CaseResult {
 	for _, svc := range f.Services {
 		svc.Gate = func(sv *Service, n int, in *graphql.QueryInput) { time.Sleep(300 * time.Microsecond) }
 	}
+	// half of the time the services overwrite the variables map they are handed once they have answered (the library's
+	// network queryer does so with uploads): the map of a call is that call's own
+	scribble := r.Intn(2) == 0
+	varsBefore := make([]string, len(reqs))
+	for k := range reqs {
+		varsBefore[k] = Canon(reqs[k].vars)
+	}
+	for _, svc := range f.Services {
+		svc.Scribble = scribble
+	}
 	got := make([]string, len(reqs))
 	var wg sync.WaitGroup
 	exec := func(k int) {
@@ -193,12 +203,18 @@ func (c11) Run(c *Ctx, i int) CaseResult {
 		exec(k)
 	}
 	after := planPrint(plans[0])
-	cfg := map[string]interface{}{"query": q, "requests": len(reqs), "plan_from_cache": cachedPlan}
+	cfg := map[string]interface{}{"query": q, "requests": len(reqs), "plan_from_cache": cachedPlan, "services_overwrite_their_variables": scribble}
 	bad := func(channel, what string, exp, obs interface{}) {
 		res.Fails = append(res.Fails, Failure{Channel: channel, Classifier: "unclassified", What: what, Input: cfg, Expected: exp, Observed: obs})
 	}
 	if before != after {
 		bad("L0.plan-mutated", "executing changed the plan: "+diffHint(before, after), nil, nil)
+	}
+	for k := range reqs {
+		if now := Canon(reqs[k].vars); now != varsBefore[k] {
+			bad("L0.variables-own-map", fmt.Sprintf("the variables of request %d changed while it was executed (services that overwrite the map they are handed: %v): a call was handed the request's own map", k, scribble), varsBefore[k], now)
+			break
+		}
 	}
 	for k := range reqs {
 		if got[k] != reqs[k].want {
@@ -289,7 +305,7 @@ func (c11) Run(c *Ctx, i int) CaseResult {
 	deps := strings.Count(before, "\n1|")
 	res.Nontrivial = deps > 0
 	res.Counters = map[string]int{"executions": len(reqs), "outbound_calls": ncalls}
-	res.Features = []string{fmt.Sprintf("cached-plan:%v", cachedPlan), fmt.Sprintf("optional-variables:%v", optional)}
+	res.Features = []string{fmt.Sprintf("cached-plan:%v", cachedPlan), fmt.Sprintf("optional-variables:%v", optional), fmt.Sprintf("scribbling-services:%v", scribble)}
 	if i%11 == 0 {
 		res.Sample = map[string]interface{}{"query": q, "variables": reqs[0].vars, "executions": len(reqs), "outbound_calls": ncalls}
 	}
